@@ -1,6 +1,7 @@
 import Driver.Util
 import Driver.C05
 import TemporalModel.Model.Zone
+import TemporalModel.Model.RelativeZoned
 import TemporalModel.Model.Partial
 import TemporalModel.Spec.Zone
 namespace Driver
@@ -138,14 +139,48 @@ def handleZone (toks : List String) : Option String :=
         let o ← rawOptions l s inc m
         match zdtNew a, zdtNew b, o with
         | .ok a, .ok b, .ok o =>
-          match zdtDiff (op == "zdt_since") tz a b o with
-          | some r => some (r.render Dur.render)
-          | none => some "?unmodelled"
+          some ((zdtDiffFull (op == "zdt_since") tz a b o).render Dur.render)
         | .ok _, .ok _, .err k => some ("err " ++ k.name)
         | .ok _, .err k, _ => some ("err " ++ k.name)
         | .err k, _, _ => some ("err " ++ k.name)
         | _, _, _ => some "panic"
       | _ => none
+    else if op == "du_round_z" then do
+      -- du_round_z zone ns <10 fields> largest smallest increment mode
+      let tz ← zone? z; let ns ← int? ns
+      let d ← dur? (rest.take 10)
+      match rest.drop 10 with
+      | [l, s, inc, m] => do
+        let o ← rawOptions l s inc m
+        some ((do let d ← Dur.new d; let ns ← zdtNew ns; let o ← o; d.roundRelZoned o tz ns : Out Dur).render Dur.render)
+      | _ => none
+    else if op == "du_zlaw" || op == "du_zlaw_spec" then do
+      -- rounding with a no-op granularity only re-balances: the result leads to the same instant as the original
+      let tz ← zone? z; let ns ← int? ns
+      let d ← dur? (rest.take 10)
+      match rest.drop 10 with
+      | [l] => do
+        let o ← rawOptions l "-" "-" "-"
+        some ((do
+          let d ← Dur.new d; let ns ← zdtNew ns; let o ← o
+          let r ← d.roundRelZoned o tz ns
+          let x ← zdtAdd tz ns r .constrain
+          let y ← zdtAdd tz ns d .constrain
+          pure (if op == "du_zlaw_spec" then 1 else if x = y then (1 : Int) else 0) : Out Int).render toString)
+      | _ => none
+    else if op == "du_total_z" then do
+      let tz ← zone? z; let ns ← int? ns
+      let d ← dur? (rest.take 10)
+      match rest.drop 10 with
+      | [u] => do
+        let u ← unit? u
+        some ((do let d ← Dur.new d; let ns ← zdtNew ns; d.totalRelZoned u tz ns : Out F64.Dyadic).render F64.Dyadic.render)
+      | _ => none
+    else if op == "du_cmp_z" then do
+      let tz ← zone? z; let ns ← int? ns
+      let a ← dur? (rest.take 10); let b ← dur? ((rest.drop 10).take 10)
+      if rest.length ≠ 20 then none else
+      some ((do let a ← Dur.new a; let b ← Dur.new b; let ns ← zdtNew ns; a.compareRelZoned b tz ns : Out Int).render toString)
     else if op == "zdt_law" then do
       let tz ← zone? z; let a ← int? ns
       match rest with
